@@ -225,6 +225,18 @@ def gen_chunkings(rng, n):
 # running the binary
 # ------------------------------------------------------------------------------------------------
 
+def spawn_retry(f):
+    """the shared build directory may be relinking the binary (another check's incremental build)"""
+    import time
+    for k in range(100):
+        try:
+            return f()
+        except (PermissionError, FileNotFoundError, OSError) as e:
+            if isinstance(e, subprocess.TimeoutExpired) or k == 99:
+                raise
+            time.sleep(0.3)
+
+
 def run_file(text, timeout=20):
     tmpd = os.path.join(vlib.BUILD, "tmp")
     os.makedirs(tmpd, exist_ok=True)
@@ -232,7 +244,7 @@ def run_file(text, timeout=20):
     with open(path, "wb") as f:
         f.write(B(text))
     try:
-        p = subprocess.run([vlib.opensmt_bin(), path], stdout=subprocess.PIPE, stderr=subprocess.PIPE, timeout=timeout)
+        p = spawn_retry(lambda: subprocess.run([vlib.opensmt_bin(), path], stdout=subprocess.PIPE, stderr=subprocess.PIPE, timeout=timeout))
         return p.returncode, p.stdout.decode("latin-1"), p.stderr.decode("latin-1")
     except subprocess.TimeoutExpired:
         return -9, "", "timeout"
@@ -245,7 +257,7 @@ def run_pipe(text, lens, timeout=20):
     for n in lens:
         chunks.append(B(text[i:i + n]))
         i += n
-    r = pipe_feed.feed([vlib.opensmt_bin(), "-p"], chunks, timeout=timeout)
+    r = spawn_retry(lambda: pipe_feed.feed([vlib.opensmt_bin(), "-p"], chunks, timeout=timeout))
     return (-9 if r["timeout"] else r["rc"]), r["out"].decode("latin-1"), r["err"].decode("latin-1")
 
 
@@ -300,7 +312,7 @@ SILENT = {"set-logic", "declare-fun", "declare-const", "assert", "push", "pop", 
 
 def predict(events):
     """events of the model -> (regex of the expected stdout, expected exit status)"""
-    ps, status, segs = False, 0, []
+    ps, status, segs, logic = False, 0, [], False
     for k, t in events:
         if k == "L":
             segs.append(re.escape(t))
@@ -331,8 +343,15 @@ def predict(events):
                     ps = sh[3][1] == "true"
                     segs.append("success\n" if ps else "")
                 elif head == "check-sat" and len(sh) == 3:
-                    segs.append("sat\n")
-                elif head in SILENT:
+                    if logic:
+                        segs.append("sat\n")
+                    else:
+                        segs.append(re.escape('(error "Illegal command before set-logic: check-sat")\n'))
+                        status = 1
+                elif head == "set-logic" and not logic:
+                    logic = True
+                    segs.append("success\n" if ps else "")
+                elif head in SILENT and (logic or head == "set-info"):
                     segs.append("success\n" if ps else "")
                 else:
                     raise Unpredictable("command %r not in the predictor's table" % head)
@@ -410,13 +429,13 @@ def run(ctx):
                               cat=c.get("cat", "corpus"), valid=c.get("valid", True), chunkings=c.get("chunkings"), name=os.path.basename(p)))
         except Exception as e:
             ctx.note("corpus file %s unreadable: %s" % (p, e))
-    counts = dict(layout=120, escq=40, lonebs=30, crlf=12, poststop=40) if ctx.quick else \
+    counts = dict(layout=80, escq=30, lonebs=20, crlf=8, poststop=25) if ctx.quick else \
         dict(layout=2500, escq=500, lonebs=300, crlf=100, poststop=600)
     for cat, n in counts.items():
         for _ in range(n):
             cases.append(gen_script(rng, cat))
     # invalid tails after exit (model-vs-binary only)
-    for _ in range(30 if ctx.quick else 300):
+    for _ in range(20 if ctx.quick else 300):
         c = gen_script(rng, "poststop")
         c["text"] += rng.choice([")", "))", "(foo)", " (check-sat", "(echo \"x\") )", ") (echo \"y\")", "(exit))"])
         c["valid"], c["cmds"], c["cat"] = False, None, "poststop-invalid"
